@@ -597,7 +597,11 @@ end XotModel.Props
     C06_create_missing_prefixes_atomic    a refused call changes nothing (both refusals precede the first call)
     C06_no_panic_create_missing_prefixes  never panics (walk: `pushed.pop().unwrap()` unreachable; prefix loop
                                           ends: C10's fuel lemma; every insertion meets an element)
-    C06_deduplicate_namespaces_total      never fails, never panics; only `remove` calls on elements
+    C06_deduplicate_namespaces_total      never fails, never panics; EVERY pass of its loop issues only `remove`
+                                          calls on elements (`dedupCalls` is the call list of one pass, on
+                                          whatever forest with the invariant the pass starts from)
+    C06_deduplicate_namespaces_passes     the loop `while pass(node) {}` cut off after ANY number of rounds has
+                                          neither failed nor panicked and left a forest with the invariant
 -/
 
 namespace XotModel.Props
@@ -657,8 +661,10 @@ theorem C06_create_missing_prefixes_calls (f : Forest) (hi : f.Inv) (env : Env) 
     ∃ env' cs, f.repairCalls env node = some (env', cs) ∧ ∀ c ∈ cs, c.isNsEdit f :=
   Forest.fpx_repairCalls hi env he
 
-/-- **`deduplicate_namespaces` never fails and never panics**, for every node argument; its calls are
-    `namespaces_mut(h).remove(prefix)` on elements `h` of the forest (live, hence not removed). -/
+/-- **`deduplicate_namespaces` never fails and never panics**, for every node argument; the calls of a
+    pass (of EVERY pass: `f` is any forest with the invariant, and every pass leaves one,
+    `C06_deduplicate_namespaces_passes`) are `namespaces_mut(h).remove(prefix)` on elements `h` of the
+    forest (live, hence not removed). -/
 theorem C06_deduplicate_namespaces_total (f : Forest) (hi : f.Inv) (env : Env) (node : Nat) :
     (f.deduplicateNamespaces env node).2 = .ok ∧
     (∀ c ∈ f.dedupCalls env node, ∃ h pfx, c = .mapRemove .namespaces h pfx ∧ f.isElement h = true ∧
@@ -666,6 +672,14 @@ theorem C06_deduplicate_namespaces_total (f : Forest) (hi : f.Inv) (env : Env) (
   refine ⟨(Forest.fpx_deduplicateNamespaces hi env node).1, fun c hc => ?_⟩
   obtain ⟨h1, h, pfx, rfl⟩ := Forest.fpx_dedupCalls hi env node c hc
   exact ⟨h, pfx, rfl, h1, Forest.fpx_isLive_of_isElement h1⟩
+
+/-- The loop after any number of rounds (induction on the fuel over the per-pass statement): no
+    error, no panic, the invariant holds (so the next pass meets the hypothesis of
+    `C06_deduplicate_namespaces_total` again), every node is of the kind it was. -/
+theorem C06_deduplicate_namespaces_passes (f : Forest) (hi : f.Inv) (env : Env) (node fuel : Nat) :
+    (Forest.dedupLoop env node fuel f).2 = .ok ∧ (Forest.dedupLoop env node fuel f).1.Inv ∧
+    ∀ x, (Forest.dedupLoop env node fuel f).1.isElement x = f.isElement x :=
+  Forest.fpx_dedupLoop env node fuel hi
 
 /-- Both calls leave every node's kind alone (element stays element, non-element stays non-element). -/
 theorem C06_prefix_calls_keep_elements (f : Forest) (hi : f.Inv) (env : Env) (node x : Nat) :
